@@ -11,3 +11,18 @@ Local Open Scope string_scope.
 Lemma gen_wiring_Slice_column_index :
   wsrc_Slice_column_index = Some (w_matrix_of "column_index").
 Proof. reflexivity. Qed.
+
+(* SecondOrderMeasures.column_index *)
+Lemma gen_wiring_SecondOrderMeasures_column_index :
+  wsrc_SecondOrderMeasures_column_index = Some (WCall (WGlobal "_ColumnIndex") [WSelf "_dimensions";
+      WVar "self"; WSelf "_cube_measures"] []).
+Proof. reflexivity. Qed.
+
+(* MatrixCubeMeasures.unconditional_cube_counts *)
+Lemma gen_wiring_MatrixCubeMeasures_unconditional_cube_counts :
+  wsrc_MatrixCubeMeasures_unconditional_cube_counts = Some (WCall (WAttr (WGlobal
+      "_BaseUnconditionalCubeCounts") "factory") [WSelf "_cube"; WSelf "_dimensions"; WIf (WCmp ">"
+      (WAttr (WSelf "_cube") "ndim") (WInt (2)%Z)) (WIndex (WAttr (WAttr (WIndex (WAttr (WSelf
+      "_cube") "dimensions") [WInt (0)%Z]) "valid_elements") "element_idxs") [WSelf "_slice_idx"])
+      (WSelf "_slice_idx")] []).
+Proof. reflexivity. Qed.
